@@ -301,6 +301,10 @@ def check_ref_property(prop: str, tier: str, seed: int) -> int:
             stage_optable(out, ["binary", "einsum", "sequence", "matmul"])
         if prop == "C13":
             stage_memguard_failures(out)
+        if prop == "C04":
+            # in-place updates through view chains on C- and Fortran-ordered bases, and `.shape` assigned on a view of a
+            # view followed by another update in the family: the cells of the operation table, every handle's values compared
+            stage_optable(out, ["inplace"])
         if prop == "C05":
             # exact gradients through in-place updates: the in-place cells of the operation table (view chains on C- and
             # Fortran-ordered bases, every index kind of setitem, where=/out= masks)
